@@ -742,6 +742,25 @@ def judge_recorded(inst, dt, db_path):
     return found, matching, state
 
 
+def format_threshold(value, style):
+    """The same positive finite number written the ways a user might type it."""
+    value = float(value)
+    if style == "int" and value == int(value) and abs(value) < 1e15:
+        return str(int(value))
+    if style == "plus":
+        return "+" + repr(value)
+    if style == "g":
+        return "%.12g" % value
+    if style == "dot" and value == int(value) and abs(value) < 1e15:
+        return "%d." % int(value)
+    if style == "exp":
+        return "%.6e" % value if float("%.6e" % value) == value else repr(value)
+    return repr(value)
+
+
+THRESHOLD_STYLES = ("repr", "repr", "repr", "int", "plus", "g", "dot", "exp")
+
+
 def thresholds_for(rng, spec):
     if spec["kind"] == "field":
         s = rng.choice([0.5, 1.0, 2.0, 3.0, 4.0, 4.0, 6.0, 8.0, 8.0, 10.0, 12.0])
@@ -810,7 +829,8 @@ def run_data_case(spec, thresholds, schedules, directory, loaded_db=None):
         _OBSERVED_CALLS = []
         sqlseam.set_plan(None)
         try:
-            out = cli.run(["classify", db, "-s", repr(float(s_thr)), "-j", repr(float(j_thr))])
+            style = THRESHOLD_STYLES[sch.seed % len(THRESHOLD_STYLES)]
+            out = cli.run(["classify", db, "-s", format_threshold(s_thr, style), "-j", format_threshold(j_thr, style)])
         finally:
             without_schedule()
             observed, _OBSERVED_CALLS = _OBSERVED_CALLS, None
